@@ -99,7 +99,9 @@ fn scenarios(seed: u64, tier: Tier) -> Vec<Scenario> {
 
 fn logical_for(s: &Scenario, old: bool) -> Logical {
     let mut rng = Rng::derive(s.seed, if old { "c09-old" } else { "c09-new" }, 0);
-    let hint = if s.comp == Comp::None || rng.chance(1, 2) {
+    let hint = if s.sim_source {
+        Hint::Yes
+    } else if s.comp == Comp::None || rng.chance(1, 2) {
         Hint::No
     } else {
         Hint::Yes
@@ -250,7 +252,10 @@ pub fn child_main(args: &Args) -> ! {
     };
     let logical = logical_for(&s, old);
     let hooks = FHooks::install();
-    hooks.set_knob("creator_workers", 1);
+    // one worker keeps the sequence of output operations deterministic; the input-stream scenarios
+    // (whose faults are indexed by read call, not by output operation) run with three workers so
+    // that "which worker saw the error" varies
+    hooks.set_knob("creator_workers", if s.sim_source { 3 } else { 1 });
     simcore::osrand::reseed(simcore::prng::hash_label(s.seed, if old { "old" } else { "new" }, 0));
     let mut opts = gen::BuildOpts::default();
     opts.sim_cfg = gen::SimReaderCfg {
